@@ -146,6 +146,12 @@ class Prover:
                 return "proved", "z3", dt, None, None
             if rs == "sat":
                 return "refuted", "z3", dt, md, None
+            if self.use_cli:
+                st_cli, be = self._cli(s)
+                dt = time.time() - t0
+                if st_cli == "unsat":
+                    self.stats[be] += 1
+                    return "proved", be, dt, None, None
             return "unknown", "z3", dt, None, reason
         full = timeout_ms or self.timeout_ms
         quantified = has_quantifier(g) or (axioms and self.axioms) or any(
